@@ -91,6 +91,8 @@ def mailbox_programs(tier):
     add('stream_stop_never_ends', None, {'prod': [('feed', 'i1')], 'c1': [('send', A, 'a1'), ('stop', A), ('await', A)]}, stream=True, K=2, strategy='NonRestartable')
     add('stream_last_drop', None, {'prod': [('feed', 'i1'), ('feed', 'i2')], 'c1': [('send', A, 'a1'), ('drop', A)]}, stream=True, K=1, strategy='NonRestartable')
     add('stream_pending_handlers_bounded', 1, {'prod': [('feed', 'i1'), ('end_stream',)], 'c1': [('send', A, 'a1'), ('send', A, 'a2')]}, 1, stream=True, K=2, strategy='NonRestartable', tag='t')
+    add('own_timeout_slow_stopped', None, {'c1': [('entry', 'build_timeout_spawn_owning'), ('to_addr', 'o', 'a'), ('call', 'a', 'a1'), ('stop', 'a'), ('join', 'o')]},
+        entry='build_timeout_spawn_owning', timeout=(1, False), cb_pending={'stopped': 1}, max_clock=3, K=2, max_steps=30)
     # OwningAddr (C17; join futures also serve C02 'everything resolves')
     O = 'o'
     add('own_join_twice', None, {'c1': [('o_call', O, 'a1'), ('to_addr', O, 'a'), ('stop', 'a'), ('join', O), ('join', O)]}, owning=True)
@@ -98,6 +100,8 @@ def mailbox_programs(tier):
     add('own_parked_join_future', None, {'c1': [('mk_join', O, 'j1'), ('poll_once', 'j1'), ('to_addr', O, 'a'), ('stop', 'a'), ('join', O)]}, owning=True)
     add('own_join_after_last_drop', None, {'c1': [('o_send', O, 'a1'), ('mk_join', O, 'j1'), ('drop', O), ('await_fut', 'j1')]}, owning=True)
     add('own_join_after_panic', None, {'c1': [('o_call', O, 'panic:1'), ('join', O)]}, owning=True)
+    add('own_join_twice_failed_start', None, {'c1': [('join', O), ('join', O)]}, owning=True, started={1: 'err'})
+    add('own_join_twice_after_panic', None, {'c1': [('o_call', O, 'panic:1'), ('join', O), ('join', O)]}, owning=True)
     add('own_join_failed_start', None, {'c1': [('join', O)]}, owning=True, started={1: 'err'})
     add('own_consume', 1 if False else None, {'c1': [('o_send', O, 'a1'), ('consume', O)]}, owning=True)
     add('own_detach', None, {'c1': [('detach', O, 'a'), ('call', 'a', 'a1'), ('downgrade', 'a', 'w'), ('drop', 'a'), ('upgrade', 'w')]}, owning=True)
@@ -218,11 +222,18 @@ def evaluate(tr, status, cap, scripts, spec=None):
         if spec['started_actions']:
             tm = oracle_timers(tr, status, spec['started_actions'])
             out['C10'] += tm
+            # the same facts are part of other properties' statements
+            out['C10'] += [m for m in c05 if 'never terminated' in m or 'upgrade' in m]          # timers never keep the actor alive
+            out['C15'] += [m for m in tm if 'aborted although' in m or 'delivered nothing' in m]  # its timers keep firing
+            if any(op[0] == 'restart' for sc in scripts.values() for op in sc):
+                out['C07'] += [m for m in tm if 'aborted although' in m]                          # a non-restartable actor ignores the request
             if spec['faults'] or any(str(op[2]).startswith('panic') for sc in scripts.values() for op in sc if len(op) > 2) or spec['started']:
                 # C06: once the actor died its timers stop firing
                 out['C06'] += [m for m in tm if 'terminated' in m or 'leaked' in m]
             out['C07'] += oracle_restart_timers(tr)
-        out['C06'] += oracle_containment(tr, status, scripts)
+        cont = oracle_containment(tr, status, scripts)
+        out['C06'] += cont
+        out['C02'] += [m for m in cont if 'awaiting the address' in m]      # awaits resolve with the termination result
         if spec.get('owning'):
             out['C17'] += oracle_owning(tr, status, scripts)
         if spec.get('registry'):
